@@ -251,10 +251,6 @@ func classifyRace(r raceReport) string {
 			!stackHas(r.Stacks[o], "commitCapacity") {
 			return "KF-RACE-GROW"
 		}
-		// KF-RACE-ENUM-DATA: enum interning appends to the string table while a reader indexes it
-		if stackHas(r.Stacks[w], "findOrAdd") && stackHas(r.Stacks[o], "readAt", "LoadString", "FilterString") && !stackHas(r.Stacks[o], "findOrAdd") {
-			return "KF-RACE-ENUM-DATA"
-		}
 	}
 	return ""
 }
